@@ -83,3 +83,61 @@ def handler_escape(inputs):
         return {'violates': False, 'detail': f'{len(reqs)} raw requests all answered with a status line'}
     finally:
         srv.stop()
+
+
+def provider_paths(inputs):
+    """Raw POST requests with a valid SOAP body but unusual request paths (percent-encoded non-latin-1 characters, CR/LF,
+    NUL, empty and surplus segments) against a real SdcProvider: each gets exactly one status line, no exception reaches
+    the server loop, no client-chosen header line appears in the answer and an error answer carries a SOAP fault."""
+    import socket
+    from urllib.parse import urlsplit
+    from native.loopback import Loop
+    body = (b'<s12:Envelope xmlns:s12="http://www.w3.org/2003/05/soap-envelope" '
+            b'xmlns:wsa="http://www.w3.org/2005/08/addressing" '
+            b'xmlns:msg="http://standards.ieee.org/downloads/11073/11073-10207-2017/message"><s12:Header>'
+            b'<wsa:Action>http://standards.ieee.org/downloads/11073/11073-20701-2018/GetService/GetMdib</wsa:Action>'
+            b'<wsa:MessageID>urn:uuid:0f6f0d2a-0000-4000-8000-000000000001</wsa:MessageID></s12:Header>'
+            b'<s12:Body><msg:GetMdib/></s12:Body></s12:Envelope>')
+    with Loop(with_consumer_mdib=False, n_consumers=0) as lp:
+        url = urlsplit(lp.provider.get_xaddrs()[0])
+        base = url.path.rstrip('/')
+        httpd = lp.provider._http_server.httpd
+        escaped = []
+        httpd.handle_error = lambda request, client_address: escaped.append(repr(__import__('sys').exc_info()[1]))
+        tails = ['/Get', '/Get%E2%82%AC', '/Get%0D%0AX-Injected:%20yes', '/Get%00', '/%FF%FE', '/Nope', '/Get/extra', '//Get',
+                 '/Get%2F..%2FGet', '/%E2%82%AC%0D%0A%0D%0A', '/Get?x=%E2%82%AC', '/Get%20%20', '/G%65t']
+        for tail in tails:
+            req = (f'POST {base}{tail} HTTP/1.1\r\nHost: x\r\nContent-Type: application/soap+xml\r\n'
+                   f'Content-Length: {len(body)}\r\nConnection: close\r\n\r\n').encode('latin-1') + body
+            n0 = len(escaped)
+            s = socket.create_connection((url.hostname, url.port), timeout=5)
+            try:
+                s.sendall(req)
+                data = b''
+                while True:
+                    try:
+                        chunk = s.recv(65536)
+                    except socket.timeout:
+                        data += b'<<TIMEOUT>>'
+                        break
+                    if not chunk:
+                        break
+                    data += chunk
+            finally:
+                s.close()
+            head, _, payload = data.partition(b'\r\n\r\n')
+            lines = head.split(b'\r\n')
+            if len(escaped) > n0:
+                return {'violates': True, 'witness_key': 'escape:provider-path', 'input': {'path': base + tail},
+                        'detail': f'POST {tail}: exception {escaped[-1]} escaped into the server loop; answer={data[:60]!r}'}
+            if not data.startswith(b'HTTP/1.'):
+                return {'violates': True, 'witness_key': 'no-status:provider-path', 'input': {'path': base + tail},
+                        'detail': f'POST {tail}: no status line, got {data[:60]!r}'}
+            if any(ln.lower().startswith(b'x-injected') for ln in lines[1:]):
+                return {'violates': True, 'witness_key': 'header-injection:provider-path', 'input': {'path': base + tail},
+                        'detail': f'POST {tail}: the answer contains a header line chosen by the client: {lines[:4]!r}'}
+            code = lines[0].split(b' ')[1] if len(lines[0].split(b' ')) > 1 else b'?'
+            if code != b'200' and b'Fault' not in payload:
+                return {'violates': True, 'witness_key': 'error-without-fault:provider-path', 'input': {'path': base + tail},
+                        'detail': f'POST {tail}: status {code.decode()} without a SOAP fault in the body ({len(payload)} bytes)'}
+        return {'violates': False, 'detail': f'{len(tails)} request paths all answered properly'}
